@@ -443,8 +443,10 @@ def status(r, pre=""):
     return r[pre + "status"][0][0]
 
 
-def compare(c, res):
-    """model vs implementation; -> list of differences"""
+def compare(c, res, by_getter=True):
+    """model vs implementation; -> list of differences.  by_getter: a member of the model is compared with the getter
+    that the option bound to it is documented to feed (C20: a wrong `&member` binding is a difference); otherwise
+    with the member of the same name (C13: the round trip does not depend on which member an option is bound to)"""
     m, i = res["model"], res["impl"]
     if m is None or i is None:
         return ["missing output (model %s, impl %s)" % (m is not None, i is not None)]
@@ -455,7 +457,7 @@ def compare(c, res):
         return d
     if m.get("law") != [["true"]]:
         d.append("the re-reading law of C13 (reparse_lawb) does not hold for the token oracle of this case")
-    lbl = var_labels()
+    lbl = var_labels() if by_getter else {}
     mv, iv = model_vars(c, m), impl_vars(i)
     for k, v in mv.items():
         g = lbl.get(k, k)
